@@ -13,7 +13,7 @@ RULE = ("trees of N small files (one block each in the main ladder, so that ever
         "schedules. The supervisor's shadow descriptor table (cross-checked against /proc/<pid>/fd) yields the peak number of "
         "simultaneously open descriptors. Oracle: exit 0; no system call returns EMFILE/ENFILE; under the slow-workers schedule (saturation is deterministic there) peak(largest N) <= peak(smallest N) + slack at the same driver/workers, and with three rungs growth must persist over the last two steps; free/pct runs are judged on exit status and EMFILE only (the bound may depend on the worker count, not on N). "
         "distinct_nontrivial = distinct (driver, workers, N, schedule)")
-ASSUMPTIONS = ["no particular constant is demanded (the pool's queue length is an implementation detail); slack = 16 descriptors",
+ASSUMPTIONS = ["no particular constant is demanded (the pool's queue length is an implementation detail); slack = 16 + 2 x workers descriptors (which workers hold a file pair at the moment of the peak is timing)",
                "N >= 1000 saturates the queue (128 blocks) at every worker count used"]
 PROCS = 8
 
@@ -41,12 +41,14 @@ def gen_cases(tier, seed):
     # the bound must not depend on what the files look like or on other options either
     variants = [("empty-files", [], "empty"), ("options", ["--fsync", "--backup", "numbered", "--gitignore"], "mixed"), ("deref+links", ["-L"], "links"),
                 ("sparse-files", ["--no-perms", "--ownership"], "sparse"), ("many-dirs", [], "dirs"), ("links+specials", ["--ownership"], "nodes"), ("many-sources", [], "sources"),
-                ("tolerated-failures", ["--ownership"], "xattrs"), ("backup-every-file", ["--backup", "numbered"], "mixed")]
+                ("tolerated-failures", ["--ownership"], "xattrs"), ("backup-every-file", ["--backup", "numbered"], "mixed"),
+                # a chain of n nested directories with one file each: the walker must not keep one handle per level
+                ("deep-tree", [], "deep"), ("deep-tree-deref", ["-L"], "deep")]
     for vi, (vname, extra, content) in enumerate(variants):
         for driver in ("parblock", "parfile"):
             if tier == "quick" and (vi + (driver == "parfile")) % 2:
                 continue
-            for n in ladder[:2] if tier == "quick" else ladder:
+            for n in (([300, 1150] if not extra else [200, 500]) if content == "deep" else ladder[:2] if tier == "quick" else ladder):
                 yield {"group": gid, "driver": driver, "workers": 4, "n": n, "sname": "slow-workers:" + vname, "plan": dict(scheds[0][1], sched_seed=r.randrange(1 << 30)),
                        "fs": "ext4", "seed": r.randrange(1 << 30), "extra": extra, "content": content}
             gid += 1
@@ -71,7 +73,14 @@ def run_case(case):
             os.makedirs(os.path.join(src, b"d%03d" % d))
         content = case.get("content", "mixed")
         nfiles = n
-        for i in range(n):
+        if content == "deep":
+            cur = src
+            for i in range(n):
+                cur = os.path.join(cur, b"x")
+                os.mkdir(cur)
+                with open(os.path.join(cur, b"f"), "wb") as f:
+                    f.write(blk[:100])
+        for i in range(n if content != "deep" else 0):
             size = 0 if content == "empty" else r.choice([1, 100, bs - 1, bs]) if content == "oneblock" else r.choice([0, 1, bs, bs + 1, 2 * bs + 5, 3 * bs])
             fp = os.path.join(src, b"d%03d" % (i % ndirs), b"f%05d" % i)
             if content == "nodes" and i % 2:
@@ -101,7 +110,7 @@ def run_case(case):
             os.makedirs(os.path.join(b(root), b"dst"))
             shutil.copytree(src, os.path.join(b(root), b"dst", b"src"))
         plan = dict(case["plan"])
-        plan.update({"log_mode": "none", "nofile": 1024, "max_steps": 200 * n + 200000, "wall_ms": 600000, "cpu_ms": 300000, "pct_horizon": 2000,
+        plan.update({"log_mode": "none", "nofile": 1024, "max_steps": 200 * n + 200000 + (3 * n * n if content == "deep" else 0), "wall_ms": 600000, "cpu_ms": 300000, "pct_horizon": 2000,
                      "sched_cap_us": 2000})
         args = ["--driver", case["driver"], "-w", str(case["workers"]), "--block-size", str(bs)] + case.get("extra", []) + ["-r", "src", "dst"]
         if content == "sources":
@@ -125,7 +134,15 @@ def run_case(case):
         if s.get("emfile"):
             res["viol"].append({"sig": "%s:emfile" % case["driver"], "what": "%d system call(s) failed with EMFILE/ENFILE; %s" % (s["emfile"], tag)})
         if run.exit0:
-            cnt = sum(len([f for f in fs if not f.endswith(b"~")]) for _, _, fs in os.walk(os.path.join(b(root), b"dst")))
+            cnt, todo = 0, [os.path.join(b(root), b"dst")]
+            while todo:       # (iterative: os.walk recurses, and some of these trees are more than a thousand levels deep)
+                d_ = todo.pop()
+                with os.scandir(d_) as it:
+                    for de in it:
+                        if de.is_dir(follow_symlinks=False):
+                            todo.append(de.path)
+                        elif not de.name.endswith(b"~"):
+                            cnt += 1
             if content == "nodes":
                 cnt = n
             if cnt != n:
@@ -155,9 +172,11 @@ def finalize(rep, cases, results, tier, seed):
         # run until back-pressure stops them, so even the smallest N fills the queue.  Under free/pct schedules how far the
         # producers get ahead is a matter of timing (a small tree may never saturate), so there only exit status and EMFILE count.
         # With three or more rungs the peak must keep growing over the last two steps to be called growth.
-        growing = len(runs) >= 2 and hi["peak"] > lo["peak"] + 16
+        # how many of the workers hold a file pair at the very moment of the peak varies from run to run: the slack grows with them
+        slack = 16 + 2 * lo["workers"]
+        growing = len(runs) >= 2 and hi["peak"] > lo["peak"] + slack
         if growing and len(runs) >= 3:
-            growing = runs[-1]["peak"] > runs[-2]["peak"] + 16 and runs[-2]["peak"] > runs[-3]["peak"] + 16
+            growing = runs[-1]["peak"] > runs[-2]["peak"] + slack and runs[-2]["peak"] > runs[-3]["peak"] + slack
         if growing and lo["sname"].startswith("slow-workers"):
             rep.violation("%s:peak-grows-with-files" % lo["driver"],
                           "peak open descriptors grows with the number of files: %s (driver %s, workers %d, sched %s)"
